@@ -278,6 +278,9 @@ theorem facts_wrap :
     condsWrap = ["row>=S1", "case total>S0", "case total+col>S0", "uniseg.HasTrailingLineBreakInString(E(chars).Grapheme)", "col>=S0"] := by
   decide +kernel
 
+/-- The extractor recognised every shape it looks for in window.go / screen.go / character.go. -/
+theorem facts_extractor_clean : VaxisModel.Gen.WindowFacts.extractErrors = [] := by decide
+
 /-! ### Non-vacuity -/
 
 /-- A 2-deep chain with a negative offset and an oversized child on a 6×4 screen: writing (1,0) in
